@@ -32,6 +32,9 @@ EXTRA = [
     # Sin/Cos/Exp of the constant 0, conditioned after another assignment (the typed value set must keep the default's values)
     "c = 0\ny = 0\ns = 0\nwhile true:\n    c = Bernoulli(1/2)\n    y = 3\n    if c == 1:\n        y = Cos(0)\n    end\n    s = y**2\nend\n",
     "c = 1\ny = 2\ns = 0\nwhile c == 1:\n    c = Bernoulli(1/2)\n    y = 4\n    if c == 0:\n        y = Exp(0)\n    end\n    s = s + y**2\nend\n",
+    # a variable assigned more than once in the initial block (the last assignment gives the initial values)
+    "x = 1\nx = 7\ny = 0\nwhile true:\n    y = Bernoulli(1/2)\n    x = x*y\nend\n",
+    "c = Bernoulli(1/2)\nx = c\nx = 3*x + 2\ny = 0\nwhile true:\n    y = Bernoulli(1/2)\n    x = x*y + y\nend\n",
     # non-integer value sets of every size / span relation (|values| = span + 1 with fractions, evenly spaced halves, thirds)
     "h = 1/2\nx = 0\nc = 0\nwhile true:\n    x = DiscreteUniform(0, 2)\n    h = x + 1/2\n    if h > 1:\n        c = 1\n    else:\n        c = 0\n    end\nend\n",
     "h = 0\ny = 0\nwhile true:\n    h = 0 {1/3} 1/2 {1/3} 2\n    y = y + h**3\nend\n",
